@@ -315,7 +315,15 @@ inline std::vector<djinterop::waveform_entry> gen_waveform(Rng& r, int size,
         case 4: n = 1; break;
         case 5: n = recommended && recommended < 20000 ? recommended : 64; break;
         case 6: n = recommended && recommended < 20000 ? recommended + 1 + r.below(5) : 100; break;
-        case 7: n = (size >= 3 && f.big) ? 3000 + r.below(3000) : 33; break;
+        case 7:
+            n = (size >= 3 && f.big) ? 3000 + r.below(3000) : 33;
+            if (size >= 2 && f.big && r.chance(1, 3))
+            {
+                // payload sizes around whole multiples of the codec's 16 KiB chunk (1.x high-res: 30 + 6 n bytes)
+                static const size_t edge[] = {8187, 8186, 8188, 2725, 2726, 5456, 5457, 16379};
+                n = edge[r.below(8)];
+            }
+            break;
         default: n = 2 + r.below(40); break;
     }
     w.resize(n);
